@@ -23,7 +23,7 @@ SPEC = {
     "assumptions": ["'conformant' = what the CTfile specification permits and the harness renderer produces; headers ASCII; no trailing blanks after a continuation dash",
                     "coordinates compare as float(token)"],
     "monitors_required": ["c07_model_compare", "c07_explicit_default_relation"],
-    "required_obs": {"quick": ["split_class", "multi_split_lines", "star_files", "extra_kw/EXACHG", "explicit_default", "dt_seen", "cov_graph_from_file", "cov_every_offset_lines",
+    "required_obs": {"quick": ["split_class", "multi_split_lines", "star_files", "extra_kw/EXACHG", "explicit_default", "explicit_default_mass_on_DT", "dt_seen", "cov_graph_from_file", "cov_every_offset_lines",
                                "cov_zero_bond_file", "cov_crlf"]},
     "watchdog_s": {"quick": 900, "thorough": 5400},
 }
@@ -123,6 +123,10 @@ def gen_mol(rng):
 
 
 def run_case(ctx, case):
+    return common.case_guard(ctx, case, _run_case)
+
+
+def _run_case(ctx, case):
     mol = Mol.from_json(case["mol"])
     rng = random.Random(case["vseed"])
     st = random_style(rng, mol) if case.get("style") is None else V3Style(**case["style"])
